@@ -242,12 +242,16 @@ Definition ufront (q : uq) : uout A :=
   | b :: _ => match getz b (hp q) with Some v => UOVal v | None => UOCrash end
   end.
 
+(* Init(): head = nil; tail = nil; hp = 0; len = 0 (lastSliceSize is left alone) *)
+Definition uinit (q : uq) : uq := mkUq [] 0 0 (lastSz q).
+
 Definition ustep (q : uq) (o : uop A) : uq * uout A :=
   match o with
   | UPush a => (upush q a, UONone)
   | UPop => upop q
   | UFront => (q, ufront q)
   | ULen => (q, UOInt (qlen q))
+  | UInit => (uinit q, UONone)
   end.
 
 Fixpoint urun (q : uq) (ops : list (uop A)) : uq * list (uout A) :=
